@@ -37,7 +37,17 @@ type Script struct {
 	Rules []sut.Named `json:"rules,omitempty"`
 	Ops   []string    `json:"ops"`
 	Class string      `json:"class"`
+	// Share: the type and rule objects come from a store shared by every script of the case that
+	// names a type with the same text - one parsed type registered in many root schemas
+	Share bool `json:"share,omitempty"`
+	// Family: index of the script with the same input and the same operations minus the no-effect
+	// ones (rejected registrations); results are compared across a family
+	Family int `json:"family"`
 }
+
+// noEffect: operations that are refused (or register something nothing refers to) and therefore must
+// not change any later result
+var noEffect = map[string]bool{"addtype-dup": true, "addtype-broken": true, "addrule-late": true, "addtype-unused": true}
 
 func deep(n int) string {
 	s := `[1, {"leaf": "value", "n": 12.5}]`
@@ -109,6 +119,40 @@ func scripts() []Script {
 		sp := pg.Example(7000 + i).Text(nil)
 		add("valid-generated", "schema", sp.Root, sp.Types, sp.Rules, schemaOps[i%4:i%4+1])
 	}
+	// dereferenced views (lazily evaluated informers are held and asked again after every later step)
+	chain := []sut.Named{{Name: "@top", Text: "{\n  \"top\": 1\n}"}, {Name: "@middle", Text: "{ // {allOf: \"@top\"}\n  \"middle\": \"m\"\n}"}, {Name: "@item", Text: "{\n  \"one\": 1\n}"}}
+	derefOps := [][]string{{"deref", "openapi", "deref", "example"}, {"check", "deref", "typeopenapi", "deref"}}
+	add("valid-deref-allof", "schema", "{ // {allOf: \"@middle\"}\n  \"own\": true\n}", chain, nil, derefOps)
+	add("valid-deref-ref", "schema", "@item", chain, nil, derefOps)
+	add("valid-deref-choice", "schema", "@item | @top", chain, nil, derefOps)
+	add("valid-deref-or", "schema", `{"k": 1 // {or: ["@item", "integer"]}`+"\n}", chain, nil, derefOps)
+	add("valid-deref-nested", "schema", "{\n  \"a\": { // {allOf: \"@item\"}\n    \"b\": @middle\n  },\n  \"c\": [@item]\n}", chain, nil, derefOps)
+	// refused registrations in the middle of a script: nothing later may differ from the script without them
+	noisy := [][]string{{"check", "addtype-dup", "deref", "openapi", "example", "ast"}, {"addtype-dup", "check", "deref", "typeopenapi"}, {"deref", "addtype-broken", "addrule-late", "deref", "openapi", "example"},
+		{"example", "addtype-unused", "example", "openapi", "deref"}, {"addrule-late", "addtype-dup", "addtype-broken", "check", "example", "openapi", "deref", "used"}}
+	add("valid-deref-allof", "schema", "{ // {allOf: \"@middle\"}\n  \"own\": true\n}", chain, nil, noisy)
+	add("valid-deref-ref", "schema", "@item", chain, nil, noisy)
+	add("valid-deref-choice", "schema", "@item | @top", chain, nil, noisy)
+	add("valid-types", "schema", "{\n  \"a\": @t,\n  @k: [@t]\n}", tT, nil, noisy[:3])
+	add("valid-enum-rule", "schema", `"a" // {enum: @e}`, nil, []sut.Named{{Name: "@e", Text: "[\n \"a\", // first\n \"b\"\n]"}}, noisy[2:])
+	add("invalid-checker", "schema", `{"a": @missing}`, chain, nil, noisy[:2])
+	// one parsed type registered in several root schemas (complete and incomplete sets of types)
+	shared := func(class, text string, types []sut.Named, rules []sut.Named, ops [][]string) {
+		for _, o := range ops {
+			out = append(out, Script{Kind: "schema", Text: text, Types: types, Rules: rules, Ops: o, Class: class, Share: true})
+		}
+	}
+	pet := []sut.Named{{Name: "@pet", Text: "{\n  \"name\": @petName,\n  \"tags\": [@tag]\n}"}, {Name: "@petName", Text: `"Tom" // {minLength: 1}`}, {Name: "@tag", Text: `"t" // {enum: @tags}`}}
+	tagRule := []sut.Named{{Name: "@tags", Text: "[\n  \"t\",\n  // the rest\n  \"u\"\n]"}}
+	shOps := [][]string{{"check", "example", "openapi", "deref"}, {"deref", "check", "ast", "typeopenapi"}}
+	shared("shared-complete", "{\n  \"pet\": @pet\n}", pet, tagRule, shOps)
+	shared("shared-complete", "[@pet, @petName]", pet, tagRule, shOps)
+	shared("shared-missing-inner", "{\n  \"pet\": @pet\n}", pet[:1], tagRule, shOps)
+	shared("shared-missing-inner", "@pet | @petName", pet[:2], tagRule, shOps)
+	shared("shared-other-root", "{\n  \"n\": @petName,\n  \"t\": \"u\" // {enum: @tags}\n}", pet[1:], tagRule, shOps)
+	inh := []sut.Named{{Name: "@base", Text: "{\n  \"id\": 1\n}"}, {Name: "@user", Text: "{ // {allOf: \"@base\"}\n  \"name\": \"n\"\n}"}}
+	shared("shared-allof-complete", "{\n  \"u\": @user\n}", inh, nil, shOps)
+	shared("shared-allof-missing-base", "{\n  \"u\": @user\n}", inh[1:], nil, shOps)
 	add("invalid-scanner", "schema", `{"a": 1,}`, nil, nil, schemaOps[:2])
 	add("invalid-scanner", "schema", `[1, 2`, nil, nil, schemaOps[:2])
 	add("invalid-scanner", "schema", deep(3)+" }", nil, nil, schemaOps[:2])
@@ -138,7 +182,30 @@ func scripts() []Script {
 	return out
 }
 
-var pool = scripts()
+var pool = withFamilies(scripts())
+
+// withFamilies appends, for every script with no-effect operations, the script without them and
+// links the two; a script without such operations is its own family.
+func withFamilies(in []Script) []Script {
+	out := append([]Script{}, in...)
+	for i := range in {
+		out[i].Family = i
+		var kept []string
+		for _, op := range in[i].Ops {
+			if !noEffect[op] {
+				kept = append(kept, op)
+			}
+		}
+		if len(kept) != len(in[i].Ops) {
+			twin := in[i]
+			twin.Ops = kept
+			twin.Family = len(out)
+			out[i].Family = len(out)
+			out = append(out, twin)
+		}
+	}
+	return out
+}
 
 // Step: run the next operation of the script living in a slot, or put a new script into the slot.
 type Step struct {
@@ -175,17 +242,50 @@ func errText(err error) string {
 	return fmt.Sprintf("%s|%d|%s|%d|%d|%d|%s", e.GoType, e.Code, e.Message, e.Index, e.Line, e.Column, e.UserType)
 }
 
-func build(sc Script) *object {
+// store: the parsed types and rules of a case, for the scripts that share them
+type store struct {
+	types map[string]schema.Schema
+	rules map[string]*enum.Enum
+}
+
+func newStore() *store {
+	return &store{types: map[string]schema.Schema{}, rules: map[string]*enum.Enum{}}
+}
+
+func build(sc Script, st *store) *object {
 	o := &object{}
 	switch sc.Kind {
 	case "schema":
 		o.s = jschema.New("@main", sc.Text)
 		o.types = map[string]schema.Schema{}
+		rule := func(r sut.Named) *enum.Enum {
+			if !sc.Share || st == nil {
+				return enum.New(r.Name, r.Text)
+			}
+			k := r.Name + "\x00" + r.Text
+			if st.rules[k] == nil {
+				st.rules[k] = enum.New(r.Name, r.Text)
+			}
+			return st.rules[k]
+		}
 		for _, r := range sc.Rules {
-			o.s.AddRule(r.Name, enum.New(r.Name, r.Text))
+			o.s.AddRule(r.Name, rule(r))
 		}
 		for _, t := range sc.Types {
-			ts := jschema.New(t.Name, t.Text)
+			var ts schema.Schema
+			k := t.Name + "\x00" + t.Text
+			if sc.Share && st != nil && st.types[k] != nil {
+				ts = st.types[k]
+			} else {
+				js := jschema.New(t.Name, t.Text)
+				for _, r := range sc.Rules {
+					js.AddRule(r.Name, rule(r))
+				}
+				ts = js
+				if sc.Share && st != nil {
+					st.types[k] = ts
+				}
+			}
 			o.types[t.Name] = ts
 			o.s.AddType(t.Name, ts)
 		}
@@ -254,6 +354,43 @@ func perform(o *object, sc Script, op string) (string, []held) {
 			if err == nil {
 				hs = append(hs, held{what: "bytes of a type's OpenAPI MarshalJSON()", bytes: b, snapshot: string(b)})
 			}
+		case "schema:deref":
+			if o.s.Check() != nil {
+				out = "not accepted"
+				return
+			}
+			infos := openapi.Dereference(o.s)
+			render := func() string { return renderInfos(infos) }
+			out = render()
+			hs = append(hs, held{what: "informers of Dereference()", snapshot: out, render: render})
+		case "schema:addtype-dup":
+			// a second type under a name that is taken (or under the root's own name): refused
+			name := "@main"
+			if len(sc.Types) > 0 {
+				name = sc.Types[0].Name
+			}
+			if err := o.s.AddType(name, jschema.New(name, "{\n  \"two\": \"x\"\n}")); err != nil {
+				out = "refused"
+			} else if len(sc.Types) > 0 {
+				out = "ACCEPTED a second type under a taken name"
+			}
+		case "schema:addtype-broken":
+			if err := o.s.AddType("@broken", jschema.New("@broken", "{\n  \"a\": [1, {\"c\": 1 // {unknownRule: 1}\n}]\n}")); err != nil {
+				out = "refused"
+			} else {
+				out = "ACCEPTED a type that does not load"
+			}
+		case "schema:addrule-late":
+			o.s.Check()
+			if err := o.s.AddRule("@late", enum.New("@late", "[1, 2]")); err != nil {
+				out = "refused"
+			} else {
+				out = "ACCEPTED a rule after compilation"
+			}
+		case "schema:addtype-unused":
+			// a valid type nothing refers to: accepted or refused, never of consequence
+			_ = o.s.AddType("@unused", jschema.New("@unused", `{"u": [1, 2]}`))
+			out = "done"
 		case "enum:check":
 			out = errText(o.e.Check())
 		case "enum:values":
@@ -323,9 +460,42 @@ func perform(o *object, sc Script, op string) (string, []held) {
 	return out, hs
 }
 
+func renderInfos(infos []openapi.SchemaInformer) string {
+	var b strings.Builder
+	var one func(inf openapi.SchemaInformer, depth int)
+	one = func(inf openapi.SchemaInformer, depth int) {
+		j, err := inf.SchemaObject().MarshalJSON()
+		fmt.Fprintf(&b, "%*s%v %s %v %q", depth*2, "", inf.Type(), j, err, inf.Annotation())
+		if pi, ok := inf.(openapi.PropertyInformer); ok {
+			fmt.Fprintf(&b, " key=%q optional=%v", pi.Key(), pi.Optional())
+		}
+		b.WriteString("\n")
+		if oi, ok := inf.(openapi.ObjectInformer); ok && depth < 6 {
+			for _, p := range oi.PropertiesInfos() {
+				one(p, depth+1)
+			}
+		}
+	}
+	for _, inf := range infos {
+		one(inf, 0)
+	}
+	return b.String()
+}
+
+var aloneCache = map[int][]string{}
+
+func alone(script int) []string {
+	if r, ok := aloneCache[script]; ok {
+		return r
+	}
+	r := runScriptAlone(pool[script])
+	aloneCache[script] = r
+	return r
+}
+
 // runScriptAlone: what a pristine process computes for a script executed from the start
 func runScriptAlone(sc Script) []string {
-	o := build(sc)
+	o := build(sc, newStore())
 	var res []string
 	for _, op := range sc.Ops {
 		r, _ := perform(o, sc, op)
@@ -339,6 +509,7 @@ func oracle(c Case) *ev.Verdict {
 	runtime.GC()
 	runtime.GC()
 	slots := map[int]*object{}
+	shared := newStore()
 	first := map[string]string{}
 	firstStep := map[string]int{}
 	var holds []held
@@ -352,7 +523,7 @@ func oracle(c Case) *ev.Verdict {
 			if st.Script >= len(pool) {
 				continue
 			}
-			o := build(pool[st.Script])
+			o := build(pool[st.Script], shared)
 			o.script = st.Script
 			slots[st.Slot] = o
 		}
@@ -363,13 +534,35 @@ func oracle(c Case) *ev.Verdict {
 		sc := pool[o.script]
 		op := sc.Ops[o.pos]
 		res, hs := perform(o, sc, op)
-		key := fmt.Sprintf("%d/%d", o.script, o.pos)
+		eff := 0
+		for _, x := range sc.Ops[:o.pos] {
+			if !noEffect[x] {
+				eff++
+			}
+		}
+		key := fmt.Sprintf("%d/%d", sc.Family, eff)
 		o.pos++
+		if noEffect[op] {
+			if strings.HasPrefix(res, "ACCEPTED") {
+				return ev.V("accepted:"+op, "step %d: %s of script %d (%s): %s", i, op, o.script, sc.Class, res)
+			}
+			continue
+		}
 		if strings.HasPrefix(res, "PANIC ") {
 			return ev.V("panic:"+sc.Kind+":"+op, "step %d: %s of %s script %d panicked: %s", i, op, sc.Class, o.script, res)
 		}
+		// what the script gives when it is run alone on objects of its own
+		if want := alone(o.script); o.pos-1 < len(want) && want[o.pos-1] != res {
+			if sc.Share && strings.Contains(sc.Class, "allof") {
+				return ev.V("history-dependent:shared-type-object-with-allOf", "step %d: %s of script %d (%s, text %.80q; its type objects are shared with the other root schemas of the case) gives\n  %.300s\nrun alone it gives\n  %.300s", i, op, o.script, sc.Class, sc.Text, res, want[o.pos-1])
+			}
+			return ev.V("history-dependent:"+sc.Kind+":"+op, "step %d: %s (operation %d of script %d, %s, text %.80q) gives\n  %.300s\nrun alone the script gives\n  %.300s", i, op, o.pos-1, o.script, sc.Class, sc.Text, res, want[o.pos-1])
+		}
 		if prev, ok := first[key]; ok {
 			if prev != res {
+				if sc.Share && strings.Contains(sc.Class, "allof") {
+					return ev.V("history-dependent:shared-type-object-with-allOf", "step %d: %s of script %d (%s, text %.80q; its type objects are shared with the other root schemas of the case) gives\n  %.300s\nbut the same script gave at step %d\n  %.300s", i, op, o.script, sc.Class, sc.Text, res, firstStep[key], prev)
+				}
 				return ev.V("history-dependent:"+sc.Kind+":"+op, "step %d: %s (operation %d of script %d, %s, text %.80q) gives\n  %.300s\nbut the same script gave at step %d\n  %.300s", i, op, o.pos-1, o.script, sc.Class, sc.Text, res, firstStep[key], prev)
 			}
 		} else {
@@ -596,6 +789,44 @@ func TestWorker(t *testing.T) {
 			t.Fatalf("worker %d: %v\n%s", i, err, b)
 		}
 	}
+}
+
+// a refused registration leaves no trace: the script with such operations gives, at its other
+// operations, what the script without them gives
+func TestPropNoEffect(t *testing.T) {
+	registerAll()
+	if i, _ := ev.Shard(); i != 0 {
+		t.Skip("not sharded")
+	}
+	for i, sc := range pool {
+		if sc.Family == i {
+			continue
+		}
+		got, want := runScriptAlone(sc), runScriptAlone(pool[sc.Family])
+		ev.Count("no-effect", 1)
+		ev.NonTrivial("no-effect", fmt.Sprint(i))
+		k := 0
+		for j, op := range sc.Ops {
+			if noEffect[op] {
+				if strings.HasPrefix(got[j], "ACCEPTED") {
+					v := ev.V("accepted:"+op, "script %d (%s): %s", i, sc.Class, got[j])
+					if ev.Report("no-effect", map[string]any{"script": i}, v) {
+						t.Errorf("VIOLATION-CANDIDATE no-effect: %s", v.Sig)
+					}
+				}
+				continue
+			}
+			if got[j] != want[k] {
+				v := ev.V("refused-call-has-effect:"+op, "script %d (%s, text %.80q, operations %v): %s after the refused registrations gives\n  %.400s\nwithout them\n  %.400s", i, sc.Class, sc.Text, sc.Ops, op, got[j], want[k])
+				if ev.Report("no-effect", map[string]any{"script": i}, v) {
+					t.Errorf("VIOLATION-CANDIDATE no-effect: %s", v.Sig)
+				}
+				break
+			}
+			k++
+		}
+	}
+	ev.Sample("no-effect", pool[len(pool)-1])
 }
 
 func TestPropRegressions(t *testing.T) {
